@@ -615,4 +615,27 @@ def Reply.lines {α : Type} : Reply α → List (Item α)
   | .body m => [.msg m]
   | .stream items => items
 
+
+/-! ### F17f repaired (proposed_fixes/C17-F17f.patch, NOT in /repo): `ChatWriter.writeResponse` sets
+    `toolCallSent` BEFORE `toChunk` reads it, so a final message that itself carries the tool call ends
+    with `finish_reason: "tool_calls"` like the non-streamed reply.  (On top of the F17c repair.) -/
+
+def oaChatStreamFF (usage : Bool) : List (Item ChatMsg) → Bool → List OaEv
+  | [], _ => []
+  | .err e :: rest, sent =>
+    if e.isEmpty then oaChatStream usage [.err e] sent ++ oaChatStreamFF usage rest sent
+    else OaEv.error e :: oaChatStreamFF usage rest sent
+  | .msg m :: rest, sent =>
+    let sent' := sent || !m.calls.isEmpty
+    let finish := if m.info.reason.isEmpty then none else if sent' then some sToolCalls else some m.info.reason
+    [OaEv.chunk m.content m.calls finish]
+      ++ (if m.info.done then (if usage then [OaEv.usage (usageOf m.info)] else []) ++ [OaEv.done] else [])
+      ++ oaChatStreamFF usage rest sent'
+
+/-- /v1/chat/completions on top of a native reply, pinned (`ff = false`) or with C17-F17f.patch -/
+def oaChatRF (ff : Bool) (v : Variant) (stream usage : Bool) : Reply ChatMsg → Nat × List OaEv
+  | .body m => if ff && stream then (200, oaChatStreamFF usage [.msg m] false) else oaChatR v stream usage (.body m)
+  | .stream items => if ff then (200, oaChatStreamFF usage items false) else oaChatR v stream usage (.stream items)
+  | .fail s m => oaChatR v stream usage (.fail s m)
+
 end OllamaVerif.Stream
